@@ -23,6 +23,7 @@ Definition fev_feasible (bs : list rbound) (e : fevent R) : Prop :=
   | FSpg p _ _ => in_box bs p
   | FTrial y => in_box bs y
   | FOut e => ev_feasible bs e
+  | FIter x _ => in_box bs x
   | _ => True
   end.
 
@@ -242,15 +243,15 @@ Section FullProofs.
     - cbn [full_outer]. cbv zeta.
       pose proof (in_box_length _ _ Hx) as Lx.
       destruct (cauchy_point bs G (f_x s) (f_g s) (hessvec (f_x s)) (f_tr s) (f_alpha s)) as [fwd n1 n2 a1 cs|ph|] eqn:Ecp.
-      2:{ cbn. split; [repeat constructor|]. intros ? ? H; discriminate. }
-      2:{ cbn. split; [repeat constructor|]. intros ? ? H; discriminate. }
+      2:{ cbn. split; [constructor; [exact Hx|repeat constructor]|]. intros ? ? H; discriminate. }
+      2:{ cbn. split; [constructor; [exact Hx|repeat constructor]|]. intros ? ? H; discriminate. }
       apply cauchy_point_pstep in Ecp. destruct Ecp as (a' & Ecs).
       destruct (pstep_props (f_x s) (f_g s) a' Lx Hg) as (Lcs & Hcs). rewrite <- Ecs in Lcs, Hcs.
       pose proof (solve_spg_feasible (f_x s) cs (f_g s) (hessvec (f_x s)) (f_tr s) (f_k s) Lx (fun v Lv => hv_len (f_x s) v Lx Lv) Lcs Hg Hcs) as Hsp.
       cbv zeta in Hsp. set (o := solve_spg brent bs S G (f_x s) cs (f_g s) (hessvec (f_x s)) (f_tr s) (f_k s)) in *.
       destruct Hsp as (Lz & Hy & Hev).
-      assert (Hpre : Forall feas (FCauchy fwd n1 n2 a1 :: o_ev o ++ [FSpgExit (o_kind o) (o_iters o)])).
-      { constructor; [exact I|]. apply Forall_app. split; [exact Hev|repeat constructor]. }
+      assert (Hpre : Forall feas (FIter (f_x s) (f_tr s) :: FCauchy fwd n1 n2 a1 :: o_ev o ++ [FSpgExit (o_kind o) (o_iters o)])).
+      { constructor; [exact Hx|]. constructor; [exact I|]. apply Forall_app. split; [exact Hev|repeat constructor]. }
       destruct (Nat.eqb (o_kind o) 3).
       { split; [apply Forall_app; split; [exact Hpre|repeat constructor]|]. intros ? ? H; discriminate. }
       pose proof (decide_feasible s a1 (o_k o) (o_z o) (o_q o) (Nat.eqb (o_kind o) 1) (o_iters o) Hx Hg Hy) as Hd.
